@@ -28,8 +28,8 @@ REJECT_LINES = (("ElfError raised", "ELF"), ("PEError raised", "PE"), ("MachOErr
 ACCEPT_LINES = (("ELF format detected", "ELF"), ("PE format detected", "PE"), ("Mach-O format detected", "MachO"),
                 ("COFF format detected", "COFF"), ("HEX format detected", "HEX"), ("SREC format detected", "SREC"),
                 ("unknown format", "raw"))
-STAGE_MODULE = {"ELF": "elf.py", "PE": "pe.py", "MachO": "macho.py", "COFF": "coff.py", "HEX": "HEX.py",
-                "SREC": "SREC.py"}
+STAGE_MODULE = {"ELF": "system/elf.py", "PE": "system/pe.py", "MachO": "system/macho.py", "COFF": "system/coff.py",
+                "HEX": "system/structs/HEX.py", "SREC": "system/structs/SREC.py"}
 ORDER = ("ELF", "PE", "MachO", "COFF", "HEX", "SREC")
 AS_LIMIT = 1 << 30
 RSS_JUMP_KB = 300 * 1024
@@ -59,13 +59,18 @@ def tname(t):
     return "%s.%s" % (m, t.__name__)
 
 
+def relname(fn):
+    """path of a source file relative to the amoco package"""
+    return fn.rsplit("/amoco/", 1)[1] if "/amoco/" in fn else os.path.basename(fn)
+
+
 def amoco_frames_of(frame):
     """[(file, function)] innermost first, amoco frames only, from a live frame"""
     out = []
     while frame is not None:
         fn = frame.f_code.co_filename
         if "/amoco/" in fn:
-            out.append((os.path.basename(fn), frame.f_code.co_name))
+            out.append((relname(fn), frame.f_code.co_name))
         frame = frame.f_back
     return out
 
@@ -120,7 +125,7 @@ def on_prof(sig, frame):
 
 def on_raise(code, offset, exc):
     if S.active and isinstance(exc, (MemoryError, RecursionError)) and S.exh is None:
-        S.exh = (tname(type(exc)), os.path.basename(code.co_filename), code.co_name)
+        S.exh = (tname(type(exc)), relname(code.co_filename), code.co_name)
         S.wstage = stage_of(S.ev)
 
 
@@ -200,7 +205,7 @@ def finish_events(res, exc, done, jump):
                 "rss_jump_kb": jump}
     elif exc is not None:
         tb = traceback.extract_tb(exc.__traceback__)
-        fr = [(os.path.basename(f.filename), f.name) for f in tb if "/amoco/" in f.filename]
+        fr = [(relname(f.filename), f.name) for f in tb if "/amoco/" in f.filename]
         fr.reverse()
         ev.append({"a": "raise", "f": "-", "e": tname(type(exc)), "cur": 0})
         info = {"kind": "raise", "stage": stage, "exc": tname(type(exc)), "frame": pick_frame(fr, None),
